@@ -249,6 +249,13 @@ func genC08(r *Rng, tier string, emit func(string, Tok)) {
 				if extra <= 4 {
 					emit("wide-auto", scenario{kind: 1 + r.Intn(2), optSize: 0, fault: -1, chunks: []int{r.Range(1, 300)}, data: w, ops: []int{op}}.tok())
 				}
+				if extra >= 1 && extra <= 3 && len(w) >= 2*(188+extra) {
+					// a 0x47 at stream offset 192 (inside the second packet: its counter byte, PID low byte or PUSI/PID high
+					// byte): the second sync byte is at 188+extra, before it
+					w2 := append([]byte{}, w...)
+					w2[192] = 0x47
+					emit("wide-auto-0x47-at-192", scenario{kind: 1 + r.Intn(2), optSize: 0, fault: -1, chunks: []int{r.Range(1, 300)}, data: w2, ops: []int{op}}.tok())
+				}
 			}
 		}
 	}
@@ -1507,6 +1514,11 @@ func genC07(r *Rng, tier string, emit func(string, Tok)) {
 			kindName = "merge-near-pids"
 		}
 		emit(kindName, scenario{kind: 1, optSize: 188, fault: -1, data: m.bytes(), ops: []int{3}}.tok())
+	}
+	// a crowded multiplex: 66..90 elementary PIDs (the PMT needs several packets), everything interleaved
+	for k := 0; k < scale(tier, 3, 20); k++ {
+		m := genRefStream(r, streamOpts{PESPIDs: r.Range(66, 90), UnitsPerPID: r.Range(1, 2), MaxPES: 120, Tables: true, Fillers: true, Repeats: 1})
+		emit("merge-crowded", scenario{kind: 1, optSize: 188, fault: -1, data: m.bytes(), ops: []int{3}}.tok())
 	}
 }
 
